@@ -261,6 +261,18 @@ structure It where
   buf : Nat := 0
 deriving Repr, Inhabited
 
+/-- the mode rule of the language (see `Model.Prog.owners`) -/
+def modeRule (P : Prog) (s : LSt) (op : Op) : Option String :=
+  match op with
+  | .conn _ _ sv _ _ =>
+    if P.owners then
+      match aget s.S sv with
+      | some v => if v.slot.empty then some "emptyslot" else none
+      | none => none
+    else none
+  | .mkS _ _ f | .setS _ f | .connfn _ _ f _ => if !P.owners && f.isOwner then some "noowner" else none
+  | _ => none
+
 /-- the operations that run no user code: one step of the interpreter without recursion -/
 def stepSimple (s : LSt) (op : Op) : Option (LSt × String) :=
   let ok (s : LSt) (r : String) : Option (LSt × String) := some (s, r)
@@ -873,9 +885,12 @@ def execOp : Nat → Prog → LSt → Op → Option (LSt × Except Unit String)
         | some (s, .ok, r) => ok s (showRes h.fl.isVoid r)
     | .throw_ => some (s, .error ())
     | op =>
-      match stepSimple s op with
-      | some (s, r) => ok s r
-      | none => ok s "badop"
+      match modeRule P s op with
+      | some r => ok s r
+      | none =>
+        match stepSimple s op with
+        | some (s, r) => ok s r
+        | none => ok s "badop"
 
 end
 
